@@ -352,3 +352,58 @@ def ge8(P, C):
                     "slicemultiply can be reached in an iteration that did not compute its own basis matrix (bsplinebasis on every path: %s, transpose: %s): " \
                     "the matrix of another axis, with that axis' number of grid points, is applied" % (covered(bb), covered(tr))
             C.ob("GE-8", name, "basis-of-this-iteration#%d" % k, ok, f.loc(s), det)
+
+
+def ge9(P, C):
+    """GE-9: slicemultiply un-flattens the column number with the axis order it flattened it with."""
+    C.rule("GE-9", "slicemultiply rotates dimension `dim` to the front and flattens the other axes into a column number with axis dim+n-1 running "
+           "fastest (`col += stride*idx[k%n]; stride *= range[k%n]` for k from dim+n-1 down to dim+1), and after the product recovers the "
+           "indices with the inverse map: either dividing down from the slowest axis (`stride /= range[k%n]; idx[k%n] = j/stride; j %= stride` "
+           "for k ascending from dim+1, stride starting as the product of all other ranges) or taking remainders from the fastest "
+           "(`idx[k%n] = j % range[k%n]; j /= range[k%n]` for k DESCENDING from dim+n-1). With two or fewer dimensions the loop runs at most "
+           "once and any order passes; from three dimensions on a mismatched order permutes the other axes' indices", floor=2)
+    f = P.one("slicemultiply")
+    R = lambda x: f.render(x).replace(" ", "")        # noqa: E731
+
+    def loop_shape(L):
+        n = f.nodes[L]
+        ini = R(n["init"]) if n.get("init", -1) >= 0 else ""
+        cond = R(n["cond"]) if n.get("cond", -1) >= 0 else ""
+        inc = R(n["inc"]) if n.get("inc", -1) >= 0 else ""
+        m = re.match(r"^\(?(\w+)=(.*?)\)?$", ini)
+        v = m.group(1) if m else "?"
+        start = m.group(2) if m else "?"
+        desc = inc in ("(%s--)" % v,) and re.match(r"^\(dim<%s\)$" % v, cond) is not None and re.sub(r"[()]", "", start) in ("dim+a->ndim-1", "a->ndim+dim-1", "dim+a->ndim-1")
+        asc = inc in ("(%s++)" % v,) and re.match(r"^\(%s<\(?(dim\+a->ndim|a->ndim\+dim)\)?\)$" % v, cond) is not None and re.sub(r"[()]", "", start) == "dim+1"
+        return v, ("descending" if desc else "ascending" if asc else None)
+    flat = unflat = None
+    for L in f.walk():
+        if f.k(L) != "ForStmt":
+            continue
+        body = f.nodes[L]["body"]
+        kids = f.ch(body) if f.k(body) == "CompoundStmt" else [body]
+        texts = [R(x) for x in kids]
+        v, direction = loop_shape(L)
+        if any(re.match(r"^\(\(?\(long\*\)\(?section->j\)?\)?\[i\]\+=\(stride\*a->i\[\(%s%%a->ndim\)\]\[i\]\)\)$" % v, t) for t in texts):
+            ok = direction == "descending" and len(texts) == 2 and texts[1] == "(stride*=a->ranges[(%s%%a->ndim)])" % v
+            flat = (L, ok, "flatten: %s over %s: %s" % (direction, v, texts))
+        stores = [t for t in texts if re.match(r"^\(a->i\[\(%s%%a->ndim\)\]\[i\]=" % v, t)]
+        if stores:
+            t = stores[0]
+            if re.search(r"=\(j/stride\)\)$", t):
+                ok = direction == "ascending" and texts == ["(stride/=a->ranges[(%s%%a->ndim)])" % v, t, "(j=(j%stride))"]
+                # stride starts as the product of all the other ranges
+                prod = any(f.k(M) == "ForStmt" and loop_shape(M)[1] == "descending" and
+                           [R(x) for x in (f.ch(f.nodes[M]["body"]) if f.k(f.nodes[M]["body"]) == "CompoundStmt" else [f.nodes[M]["body"]])] ==
+                           ["(stride*=a->ranges[(%s%%a->ndim)])" % loop_shape(M)[0]] and f.seq(M) < f.seq(L) and
+                           next((a for a in f.ancestors(M) if f.k(a) == "ForStmt"), None) == next((a for a in f.ancestors(L) if f.k(a) == "ForStmt"), None)
+                           for M in f.walk())
+                unflat = (L, ok and prod, "un-flatten by dividing down: %s over %s, stride = product of the other ranges: %s" % (direction, v, prod))
+            elif re.search(r"=\(j%%a->ranges\[\(%s%%a->ndim\)\]\)\)$" % v, t):
+                ok = direction == "descending" and texts == [t, "(j/=a->ranges[(%s%%a->ndim)])" % v]
+                unflat = (L, ok, "un-flatten by remainders: %s over %s (must descend from the fastest axis)" % (direction, v))
+            else:
+                unflat = (L, False, "un-flatten store not recognised: %s" % t[:80])
+    C.ob("GE-9", "slicemultiply", "flatten", bool(flat and flat[1]), f.loc(flat[0]) if flat else f.where(), flat[2] if flat else "the flattening loop was not found")
+    C.ob("GE-9", "slicemultiply", "unflatten-is-the-inverse", bool(unflat and unflat[1]), f.loc(unflat[0]) if unflat else f.where(),
+         unflat[2] if unflat else "the un-flattening loop was not found")
